@@ -165,7 +165,10 @@ pub struct PrepDoc<D: Doc> {
 /// Which fault-free references a check cannot do without.
 #[derive(Clone, Copy, PartialEq, Eq)]
 pub enum Need {
-    /// only the stream and its schema (C11, C12, C10 judge each path against its own reference, if any)
+    /// only the stream and its schema; no fault-free read is executed at all (C11)
+    StreamOnly,
+    /// the stream, plus both fault-free reads as *optional* references (C12, C10 judge each path against its
+    /// own reference, if it has one)
     Stream,
     /// the unfragmented full-copy read (C14)
     Full,
@@ -186,15 +189,20 @@ pub fn prep_doc_need<D: Doc>(seed: u64, tag: &str, vi: u64, tier: Tier, need: Ne
     if b.len() + 8192 > ARENA_CAP {
         return None;
     }
-    let canon_full = match catch(|| D::deserialize_full(&mut std::io::Cursor::new(&b[..]))) {
-        Ok(Ok(val)) => {
-            let mut c = Vec::new();
-            val.canon(&mut c);
-            Some(c)
+    let canon_full = if need == Need::StreamOnly {
+        None
+    } else {
+        match catch(|| D::deserialize_full(&mut std::io::Cursor::new(&b[..]))) {
+            Ok(Ok(val)) => {
+                let mut c = Vec::new();
+                val.canon(&mut c);
+                Some(c)
+            }
+            _ => None,
         }
-        _ => None,
     };
-    let canon_eps = with_arena(|a| {
+    // a check that does not use the ε-copy reference does not execute the ε-copy read either
+    let canon_eps = if matches!(need, Need::StreamOnly | Need::Full) { None } else { with_arena(|a| {
         let s = a.place(&b, 0);
         match catch(|| D::deserialize_eps(s)) {
             Ok(Ok(e)) => {
@@ -204,9 +212,9 @@ pub fn prep_doc_need<D: Doc>(seed: u64, tag: &str, vi: u64, tier: Tier, need: Ne
             }
             _ => None,
         }
-    });
+    }) };
     match need {
-        Need::Stream => {}
+        Need::Stream | Need::StreamOnly => {}
         Need::Full => {
             canon_full.as_ref()?;
         }
